@@ -41,6 +41,11 @@ class Wire:
     def is_coincident(self, wire: "Wire") -> bool:
         """Returns True if this wire is in the same spot than the argument,
         regardless of alignment"""
+        # a collapsed wire (both ends at one vertex) is a point, not an edge:
+        # it has no cells and nobody shares it
+        if not (self.is_valid and wire.is_valid):
+            return False
+
         return self.vertices in [wire.vertices, wire.vertices[::-1]]
 
     def is_aligned(self, wire: "Wire") -> bool:
